@@ -88,6 +88,16 @@ def nested(op, names):
     return e
 
 
+# distinct numbers that a comparison identifies pairwise only through the conversion to binary32: an exact operand
+# is converted when its neighbour is inexact, so "=" on such a tuple is decided by WHICH operands are adjacent
+CLUSTERS = [["i16777216", "i16777217", "r%08x" % f32bits(16777216.0)],
+            ["i-16777216", "i-16777217", "r%08x" % f32bits(-16777216.0)],
+            ["q33554431/2", "i16777216", "r%08x" % f32bits(16777216.0), "q33554433/2"],
+            ["i2147483647", "i2147483646", "r%08x" % f32bits(2147483648.0), "i2147483520"],
+            ["q1/3", "r%08x" % f32bits(1.0 / 3.0), "q11184811/33554432", "q16777217/50331648"],
+            ["i0", "r80000000", "r00000000", "q0/5"]]
+
+
 def nary_cases(rng, n, per_case=100):
     """cases of `per_case` tests; a test binds 3-5 variables to numbers (grid or random, unreduced ratios
     included) and evaluates an n-ary call, its left-nested binary spelling (folds) or its adjacent pairs (chains).
@@ -109,10 +119,15 @@ def nary_cases(rng, n, per_case=100):
             ops = sorted(ops[:arity], key=lambda x: rng.random())
             j = rng.randrange(arity - 1)
             ops[j + 1] = ops[j] if rng.random() < 0.5 else ops[j + 1]
+        cluster = rng.random() < 0.2
+        if cluster:
+            cl = rng.choice(CLUSTERS)
+            arity = rng.choice([3, 3, 4, 5])
+            ops = [rng.choice(cl) for _ in range(arity)]
         names = VARS[:arity]
         for nm, v in zip(names, ops):
             lines.append("DEFNUM 0 %s %s" % (hexs(nm), v))
-        if rng.random() < 0.5:
+        if rng.random() < (0.5 if not cluster else 0.15):
             op = rng.choice(FOLD_OPS)
             pos = [len(lines), len(lines) + 1]
             lines.append("EVAL 0 " + hexs("(%s %s)" % (op, " ".join(names))))
